@@ -588,6 +588,12 @@ func (c07Driver) Run(raw json.RawMessage) Case {
 			root, err := repoB.StoreCommit(first.TreeHash)
 			must(err, "store other root")
 			if string(root) == commits[0] {
+				// same author, same second: the commit object is the same one; a second later it is not
+				time.Sleep(1100 * time.Millisecond)
+				root, err = repoB.StoreCommit(first.TreeHash)
+				must(err, "store other root")
+			}
+			if string(root) == commits[0] {
 				return Case{Skip: "could not make a distinct root commit"}
 			}
 			_ = repoB.LocalConfig().StoreString("user.name", "testuser")
